@@ -1,8 +1,6 @@
 """Not-applicable list and engine list (claimed properties carry their own META in rules/cXX.py; see tools/gen_manifest.py)."""
 
 NOT_APPLICABLE = {
-    'C11': 'max-min fairness of the water-filling loop quantifies over numeric multisets and rounding; no structural clause of it is a '
-           'necessary condition that survives a behaviour-preserving rewrite, so static analysis (this task\'s technique) cannot decide it',
     'C22': 'byte-identity of copies over arbitrary source trees, part boundaries and destination states is a round-trip property of runtime '
            'values and file-system state; not decidable from the shape of the code (the semaphore it uses is covered by C40)',
     'C37': 'numerical correctness of Scala statistics routines against their mathematical definitions; no static rule in reach bounds floating-point results',
@@ -11,7 +9,7 @@ NOT_APPLICABLE = {
 }
 
 # Properties whose rule module has been reviewed and passes on the unchanged tree; only these are claimed in MANIFEST.json.
-READY = ['C01', 'C02', 'C03', 'C04', 'C05', 'C06', 'C07', 'C08', 'C09', 'C10', 'C12', 'C13', 'C14', 'C15', 'C16', 'C17', 'C18', 'C19', 'C20', 'C21', 'C23', 'C24', 'C25', 'C26', 'C27', 'C28', 'C29', 'C30', 'C31', 'C32', 'C33', 'C34', 'C35', 'C36', 'C38', 'C40', 'C41']
+READY = ['C01', 'C02', 'C03', 'C04', 'C05', 'C06', 'C07', 'C08', 'C09', 'C10', 'C11', 'C12', 'C13', 'C14', 'C15', 'C16', 'C17', 'C18', 'C19', 'C20', 'C21', 'C23', 'C24', 'C25', 'C26', 'C27', 'C28', 'C29', 'C30', 'C31', 'C32', 'C33', 'C34', 'C35', 'C36', 'C38', 'C40', 'C41']
 
 ENGINES = {
     'source_commits': [],
